@@ -259,6 +259,24 @@ func lwwEngine(prop string, variable bool) *Engine {
 		if variable && r.Pct(30) {
 			addCompressibleBurst(w, r)
 		}
+		if r.Pct(15) {
+			// a bucket is destroyed and created again under the same key with other
+			// columns (another record width) while the server keeps running, and
+			// written to again: nothing remembered about the old incarnation may leak
+			old := w.Buckets[r.Intn(len(w.Buckets))]
+			nb := &Bucket{Sym: old.Sym, TF: old.TF, Attr: old.Attr, Variable: old.Variable, Cols: []Col{{Name: "Id", Typ: "i8"}}}
+			for j, nx := 0, r.Intn(4); j < nx; j++ {
+				nb.Cols = append(nb.Cols, Col{Name: fmt.Sprintf("R%d", j), Typ: allTypes[r.Intn(len(allTypes))]})
+			}
+			w.Ops = append(w.Ops, &WOp{Kind: "destroy", Key: old.Key()}, &WOp{Kind: "create", B: nb})
+			hot := hotTimes(r, nb, c)
+			ids := &idGen{n: 700000}
+			for k, nw := 0, 1+r.Intn(3); k < nw; k++ {
+				recs := genRecs(r, c, nb, hot, ids, 1+r.Intn(5))
+				w.Ops = append(w.Ops, &WOp{Kind: "write", W: []*WriteReq{{Variable: nb.Variable, Parts: []*BucketWrite{{B: nb, Recs: recs}}}}})
+			}
+			res.Count("bucket-recreated-with-other-columns", 1)
+		}
 		runModelHistory(prop, w, res, func(mr *modelRun, i int, op *WOp, err error) {
 			switch op.Kind {
 			case "write":
